@@ -462,10 +462,12 @@ func sigOf(sc Scenario, clause string, x execResult) string {
 	return fmt.Sprintf("%s/%s", clause, strings.Join(evs, "+"))
 }
 
+var deadline time.Time // per worker process: exploration stops there and the run is reported as not exhaustive
+
 func explore(r *rep.Run, sc Scenario, shard, nshards int) {
 	outcomes := map[string]int{}
 	var first *execResult
-	ex := &vsched.Explorer{Bound: sc.Bound, MaxExec: sc.MaxExec / nshards, Shard: shard, NShards: nshards}
+	ex := &vsched.Explorer{Bound: sc.Bound, MaxExec: sc.MaxExec / nshards, Shard: shard, NShards: nshards, Deadline: deadline}
 	maxSteps := 0
 	ex.RunOne = func(prefix []int) vsched.Result {
 		x := runOne(sc, prefix)
@@ -606,6 +608,10 @@ func Run(r *rep.Run) {
 			r.Count("distinct_outcomes/"+name, int64(len(m)))
 		}
 		return
+	}
+	deadline = time.Now().Add(5 * time.Minute)
+	if thorough {
+		deadline = time.Now().Add(20 * time.Minute)
 	}
 	runtime.GOMAXPROCS(1) // one processor: quiescence polling is cheapest and nothing runs in parallel with the released thread
 	for i, sc := range scs {
